@@ -144,3 +144,19 @@ def loop_var_source(loops: list, name: str) -> Optional[ast.AST]:
 
 def norm(expr) -> str:
     return ast.unparse(expr) if expr is not None else ""
+
+
+def node_reads_table(a, an, f, cfg, n, table: str) -> bool:
+    """The node reads X.<table> directly, or calls a Context helper method that does."""
+    root = cfg.own_ast(n)
+    if root is None:
+        return False
+    for e in iter_own(root):
+        if isinstance(e, ast.Attribute) and e.attr == table and isinstance(e.ctx, ast.Load):
+            return True
+        if isinstance(e, ast.Call):
+            c = a.callee(f, e)
+            if c.kind == "func" and c.func.cls is an.Context and c.func is not f and not a.func_mutations(c.func):
+                if any(isinstance(x, ast.Attribute) and x.attr == table for x in walk_own(c.func.node)):
+                    return True
+    return False
